@@ -66,13 +66,44 @@ def oracle(r):
     return None
 
 
+def shared_file_world(seed, i):
+    """Every export file is absent and is shared by several pieces that all match from the scan
+    directory, so that several workers create / extend / write the same new file at the same time."""
+    import worldgen
+    rng = vlib.rng_for(seed, "C05shared/%d" % i)
+    w = worldgen.World()
+    w.put_dir((b"export",))
+    w.put_dir((b"scan0",))
+    w.scans = [(b"scan0",)]
+    ts = []
+    n1 = rng.choice([7, 9, 12])
+    ts.append(worldgen.TorrentSpec(b"long%d" % i, rng.choice([2, 3]), [worldgen.TFile([], bytes(rng.randrange(1, 256) for _ in range(n1)))], True))
+    files = [worldgen.TFile([b"d", b"f%d" % k], bytes(rng.randrange(1, 256) for _ in range(rng.choice([3, 4, 5])))) for k in range(rng.choice([3, 4]))]
+    ts.append(worldgen.TorrentSpec(b"multi%d" % i, rng.choice([2, 3]), files, False))
+    w.torrents = sorted(ts, key=lambda t: t.info_hash)
+    w.presented = list(range(len(w.torrents)))
+    k = 0
+    for t in w.torrents:
+        for f in t.files:
+            w.put_file((b"scan0", b"c%d" % k), f.content)
+            k += 1
+    w.resize = False
+    return w
+
+
+def world_of(seed, i):
+    if i % 5 == 4:
+        return shared_file_world(seed, i)
+    return runprops.world_for("sched", seed, i, allow_shared=False)
+
+
 def build(ctx, tier):
     nworlds = 30 if tier == "quick" else 150
     nsched = 8 if tier == "quick" else 40
     scen = []
     for i in range(nworlds):
         rng = vlib.rng_for(ctx["seed"], "C05/%d" % i)
-        w = runprops.world_for("sched", ctx["seed"], i, allow_shared=False)
+        w = world_of(ctx["seed"], i)
         for s in range(nsched):
             import copy
             v = copy.copy(w)
@@ -109,6 +140,17 @@ def correspondence(ctx):
         elif oracles.determined(oracles.Ctx(r["w"], r["rr"], r["ce"])):
             stats["runs of worlds whose data determines the outcome"] += 1
             trees[r["sc"].index].add(repr(sorted((k, v[0], v[1] if v[0] != "dir" else None) for k, v in r["rr"].after.items())))
+    # no I/O failure is injected here: a piece may be counted as faulted under some schedule only if
+    # the single-threaded run of the same world faults on it too (same guarantees as a single-threaded run)
+    ref_faults = {}
+    for r in runs:
+        if r["sc"].variant["sched_seed"] is None and r["w"].threads == 1:
+            ref_faults[r["sc"].index] = set(k for k, v in r["ce"]["outcomes"].items() if "fault" in v)
+    for r in runs:
+        extra = set(k for k, v in r["ce"]["outcomes"].items() if "fault" in v) - ref_faults.get(r["sc"].index, set())
+        if extra and r["sc"].index in ref_faults and len(findings) < 5:
+            findings.append({"scenario": r["sc"].ident(), "violated_clause": "piece(s) %s counted as faulted under this schedule / thread count although no I/O failure was injected and the single-threaded run of the same world evaluates them without fault" % sorted(extra),
+                             "model_verdict": r["verdict"][:300], "world": runprops.describe_world(r["w"]), "schedule_tail": r["rr"].sched[-30:]})
     for idx, ts in trees.items():
         if len(ts) > 1 and len(findings) < 5:
             findings.append({"scenario": {"tag": "sched", "world_seed": ctx["seed"], "index": idx}, "violated_clause": "different schedules / thread counts produced different export trees for a world whose available data determines the result"})
@@ -120,11 +162,17 @@ def correspondence(ctx):
     return res
 
 
+def search(ctx, unexplained):
+    ctx2 = dict(ctx, tier="thorough")
+    res = correspondence(ctx2)
+    return res.get("findings", [])[:3]
+
+
 def replay(ctx, payload):
     vlib.build_harness()
     ctx["driver"] = vlib.build_driver()
     sc = payload["scenario"]
-    w = runprops.world_for("sched", sc["world_seed"], sc["index"], allow_shared=False)
+    w = world_of(sc["world_seed"], sc["index"])
     w.threads = sc.get("variant", {}).get("threads", 2)
     seed = sc.get("variant", {}).get("sched_seed")
     runs = runprops.run_scenarios(ctx, [(runprops.Scenario("sched", sc["world_seed"], sc["index"], sc.get("variant", {})), w)],
